@@ -180,6 +180,8 @@ def gen_version():
 -- function sha256: {fdig}
 namespace EmdGen
 
+def versionTranslated : Bool := true
+
 /-- Translation of `_version_is_geq(current, minimum)`; a fall-through (`None`) is falsy. -/
 def versionIsGeq (c0 c1 c2 m0 m1 m2 : Int) : Bool :=
   {body}
@@ -371,11 +373,16 @@ def gen_tables():
     L = ["-- GENERATED by tools/py2lean.py from /repo/src/emdfile -- do not edit",
          f"-- sources sha256: {h.hexdigest()}",
          "namespace EmdGen", ""]
+    DEFAULTS = {'writeModes': ['w', 'write'], 'overwriteModes': ['o', 'overwrite'], 'appendModes': ['a', '+', 'append'], 'appendOverModes': ['oa', 'ao', 'o+', '+o', 'appendover'], 'baseGroupTypes': ['root', 'metadatabundle', 'metadata'], 'dataGroupTypes': ['node', 'array', 'pointlist', 'pointlistarray', 'custom'], 'mergeOptions': ['True', 'False', 'copy', 'overwrite', 'copyover'], 'mdWriterTags': ['dict', 'None', 'string', 'bool', 'number', 'array', 'tuple', 'list', 'tuple_of_tuples', 'tuple_of_arrays', 'list_of_arrays', 'tuple_of_strings', 'list_of_strings'], 'mdReaderTags': ['dict', 'None', 'string', 'number', 'bool', 'array', 'tuple', 'tuple_of_arrays', 'tuple_of_tuples', 'tuple_of_strings', 'list', 'list_of_arrays', 'list_of_strings']}
+    missing = []
     def strlist_def(name, default=None):
         if name in items:
             L.append(f"def {name} : List String := {lean_strlist(items[name])}")
         else:
-            L.append(f"-- UNAVAILABLE {name}")
+            # FALLBACK to the documented table, flagged in `unavailable` (the tie obligations of the properties that are
+            # about this table then fail, the rest of the model still builds)
+            missing.append(name)
+            L.append(f"def {name} : List String := {lean_strlist(DEFAULTS[name])}  -- FALLBACK (not recognised in the source)")
     for nm in ["writeModes", "overwriteModes", "appendModes", "appendOverModes",
                "baseGroupTypes", "dataGroupTypes"]:
         strlist_def(nm)
@@ -384,16 +391,19 @@ def gen_tables():
     elif "customGroupTypesLiteral" in items:
         L.append(f"def customGroupTypes : List String := {lean_strlist(items['customGroupTypesLiteral'])}")
     else:
-        L.append("-- UNAVAILABLE customGroupTypes")
+        missing.append("customGroupTypes")
+        L.append('def customGroupTypes : List String := dataGroupTypes.map (fun s => "custom_" ++ s)  -- FALLBACK')
     if "groupTypeParts" in items:
         m = {"EMD_base_group_types": "baseGroupTypes", "EMD_data_group_types": "dataGroupTypes",
              "EMD_custom_group_types": "customGroupTypes"}
         try:
             L.append("def groupTypes : List String := " + " ++ ".join(m[n] for n in items["groupTypeParts"]))
         except KeyError:
-            L.append("-- UNAVAILABLE groupTypes")
+            missing.append("groupTypes")
+            L.append("def groupTypes : List String := baseGroupTypes ++ dataGroupTypes ++ customGroupTypes  -- FALLBACK")
     else:
-        L.append("-- UNAVAILABLE groupTypes")
+        missing.append("groupTypes")
+        L.append("def groupTypes : List String := baseGroupTypes ++ dataGroupTypes ++ customGroupTypes  -- FALLBACK")
     L.append("def classGroupTypes : List (String × String) := [" +
              ", ".join(f"({lean_str(a)}, {lean_str(b)})" for a, b in items["classGroupTypes"]) + "]")
     L.append("def fileOpens : List (String × String × String) := [" +
@@ -402,9 +412,12 @@ def gen_tables():
     if "walkMaxDepth" in items:
         L.append(f"def walkMaxDepth : Nat := {items['walkMaxDepth']}")
     else:
-        L.append("-- UNAVAILABLE walkMaxDepth")
+        missing.append("walkMaxDepth")
+        L.append("def walkMaxDepth : Nat := 6  -- FALLBACK")
     strlist_def("mdWriterTags")
     strlist_def("mdReaderTags")
+    L.append("/-- fragments the translator did not recognise in the current source (fallback tables are in use for them) -/")
+    L.append(f"def unavailable : List String := {lean_strlist(missing)}")
     L += ["", "end EmdGen", ""]
     return "\n".join(L), notes, items
 
@@ -428,11 +441,16 @@ def main():
     report = {"unavailable": [], "changed": []}
     text, status, fdig = gen_version()
     if text is None:
+        # FALLBACK: the hand-written lexicographic comparison, flagged, so that only the obligations that are ABOUT this
+        # fragment (C20_translator_tie) break - not every check that links the driver
         report["unavailable"].append(["versionIsGeq", status])
         text = f"""-- GENERATED by tools/py2lean.py -- do not edit
 -- function sha256: {fdig}
--- UNAVAILABLE versionIsGeq: {status}
+-- UNAVAILABLE versionIsGeq: {status}  (fallback definition below; EmdGen.versionTranslated = false)
 namespace EmdGen
+def versionTranslated : Bool := false
+def versionIsGeq (c0 c1 c2 m0 m1 m2 : Int) : Bool :=
+  decide (c0 > m0) || (decide (c0 = m0) && (decide (c1 > m1) || (decide (c1 = m1) && decide (c2 ≥ m2))))
 end EmdGen
 """
     if write_if_changed(os.path.join(OUT, "Version.lean"), text):
